@@ -240,11 +240,37 @@ pub fn run(ctx: &Ctx, _args: &Args) -> i32 {
     let n: u64 = ctx.tier.pick(40_000, 1_000_000);
     let fixtures = crate::fixtures::load();
     let fixture_requests: Vec<ReqSpec> = fixtures.iter().flat_map(|f| f.requests.iter().cloned()).collect();
+    let n_worlds: u64 = ctx.tier.pick(2_400, 48_000);
     let report = run_sharded(jobs, |shard, report| {
         let mut rng = Rng::stream(ctx.seed, shard as u64);
         for _ in 0..(n / jobs as u64) {
             let case = random_case(&mut rng);
             record(&case, report);
+        }
+        // routers of the C01 generator (all trigger layers: a rule can sit in several buckets, e.g. one per satisfied
+        // ip constraint): the action must not depend on the instance (every HashMap has its own RandomState)
+        for _ in 0..(n_worlds / jobs as u64) {
+            let world = super::c01::random_world(&mut rng, 10);
+            let model = Model::new(&world.cfg, &world.rules);
+            let probes: Vec<ReqSpec> = probes_for(&model, &mut rng, 1, 2).into_iter().map(|(q, _)| q).take(6).collect();
+            for q in probes {
+                report.eval();
+                let case = WorldCase {
+                    world: world.clone(),
+                    request: q,
+                    perm_seed: rng.next_u64(),
+                };
+                match guarded(|| check_world(&case.world, &case.request, case.perm_seed)) {
+                    Err(p) => report.library_panic(&p),
+                    Ok(Err(m)) => report.violation("order-dependent", m, json!({"world_case": case})),
+                    Ok(Ok(k)) => {
+                        report.count("generated_world_pairs_checked");
+                        if k >= 2 {
+                            report.count("generated_world_pairs_with_2_or_more_matched_rules");
+                        }
+                    }
+                }
+            }
         }
         // the repository's fixture rule sets: realistic effects (markers, variables, filters) under permutation
         for (i, fx) in fixtures.iter().enumerate() {
@@ -278,7 +304,7 @@ pub fn run(ctx: &Ctx, _args: &Args) -> i32 {
     finish(
         ctx,
         report,
-        "the repository's fixture rule sets with their requests (permuted matched lists, shuffled insertion order), and rule sets of 2-48 rules all matching one request, few distinct ranks (many ties), ids from a pool with case variants / prefixes / digits / non-ASCII, conflicting effects (status codes, override of one shared header, reset/stop at tied ranks), sampling disabled; compared: all k! permutations of the matched list (k<=6) or 61 random ones, routers built with permuted insertion orders / remove+re-insert / two change-sets with cache in between (each HashMap has its own RandomState), and the order of the contributing rules against (rank desc, id desc). non-trivial = distinct rule set with at least two rules sharing a rank",
+        "the repository's fixture rule sets and routers of the C01 generator with their requests (permuted matched lists, shuffled insertion order, rebuilt instances), and rule sets of 2-48 rules all matching one request, few distinct ranks (many ties), ids from a pool with case variants / prefixes / digits / non-ASCII, conflicting effects (status codes, override of one shared header, reset/stop at tied ranks), sampling disabled; compared: all k! permutations of the matched list (k<=6) or 61 random ones, routers built with permuted insertion orders / remove+re-insert / two change-sets with cache in between (each HashMap has its own RandomState), and the order of the contributing rules against (rank desc, id desc). non-trivial = distinct rule set with at least two rules sharing a rank",
         &["serde_json serialisation as the observable", "the C05 reference order"],
         started,
         200,
